@@ -4,7 +4,7 @@
    injected ';') to equal CSS is decided by the correspondence on the real compiler (harness/props/c12.py (b),(c)). *)
 From Coq Require Import String.
 From Coq Require Import List Ascii Bool NArith.
-Require Import Model.Text Model.ParamTypes Gen.Params Model.Lex Model.Pipeline Proofs.LexProofs Proofs.PipelineProofs.
+Require Import Model.Text Model.ParamTypes Gen.Params Model.Lex Model.Cases Model.Pipeline Proofs.LexProofs Proofs.PipelineProofs.
 Import ListNotations.
 Open Scope char_scope.
 
@@ -78,3 +78,14 @@ Example C12_example :
   /\ erase (tokens_filtered ($".a" ++ render_gap g ++ $".b{color:red;" ++ render_gap g ++ $"}"))
      = erase (tokens_filtered ($".a .b{color:red;}")).
 Proof. vm_compute. auto 10. Qed.
+
+(* the whole model pipeline on a wild layout (comments with ; { , CRLF, blank lines, a line comment holding a brace, a comment
+   inside a value gap, the last semicolon omitted) and on the compact spelling of the same program *)
+Example C12_pipeline_example :
+  let nl := ["010"] in let crlf := ["013"; "010"] in
+  compile_text (false, false, false, 1)
+    ($"/* c ; { */ @w : 2px ;" ++ crlf ++ $".a" ++ nl ++ nl ++ $".b ,p:hover{ // x }" ++ nl ++ $"margin : 1px" ++ crlf ++ $"  @w /* y */ ; color:#FFF" ++ nl ++ $"}")
+  = compile_text (false, false, false, 1) ($"@w:2px;.a .b,p:hover{margin:1px @w;color:#FFF;}")
+  /\ compile_text (false, false, false, 1) ($"@w:2px;.a .b,p:hover{margin:1px @w;color:#FFF;}")
+  = Cases.Ok ($".a .b," ++ nl ++ $"p:hover {" ++ nl ++ $" margin: 1px 2px;" ++ nl ++ $" color: #ffffff;" ++ nl ++ $"}").
+Proof. vm_compute. auto. Qed.
